@@ -15,7 +15,10 @@ def bytes_eq(a,b):
     for x,y in zip(a,b):
         if isinstance(x,int) and isinstance(y,int):
             if x!=y: return Bool(False)
-        else: conj.append(bterm(x)==bterm(y))
+        else:
+            ax=allowed(x); ay=allowed(y)
+            if ax is not None and ay is not None and not (ax&ay): return Bool(False)
+            conj.append(bterm(x)==bterm(y))
     if not conj: return Bool(True)
     return Bool(z3.And(*conj) if len(conj)>1 else conj[0])
 
@@ -501,6 +504,10 @@ def utf8_valid(run,bl):
     i=0;n=len(bl)
     def rng(x,lo,hi):
         if isinstance(x,int): return Bool(lo<=x<=hi)
+        ax=allowed(x)
+        if ax is not None:
+            if all(lo<=v<=hi for v in ax): return Bool(True)
+            if not any(lo<=v<=hi for v in ax): return Bool(False)
         return Bool(z3.And(z3.UGE(x,lo),z3.ULE(x,hi)))
     while i<n:
         x=bl[i]
@@ -1012,7 +1019,8 @@ def register_all(E):
     M(r'(^|::)Option::as_deref$',m_opt_as_deref)
     M(r'(^|::)Option::cloned$',m_opt_cloned)
     M(r'(^|::)Option::take$',m_opt_take)
-    M(r'(^|::)bool::then_some$',m_then_some)
+    M(r'(^|::)bool::(<impl bool>::)?then_some$',m_then_some)
+    M(r'(^|::)bool::(<impl bool>::)?then$',lambda e,run,a,f: some(e.call_value(run,a[1],[])) if run.branch_bool(a[0],'then') else none())
     M(r'^must_use$',m_ident)
     M(r'^(std::boxed::)?Box::new$',m_box_new)
     M(r'^(std::boxed::)?Box::new_uninit$',m_box_uninit)
@@ -1690,6 +1698,11 @@ def m_to_rfc3339_opts(e,run,a,f):
     d=deref(a[0]); fmt=deref(a[1])
     if fmt.vname!='Secs': raise Unsupported('to_rfc3339_opts '+str(fmt.vname))
     off=0 if d.ty=='DateTime' else d.f[2].v
+    if d.ty=='DateTime' and d.f[0].conc():
+        import datetime
+        try: txt=(datetime.datetime(1970,1,1)+datetime.timedelta(seconds=d.f[0].signed_val())).strftime('%Y-%m-%dT%H:%M:%SZ')
+        except OverflowError: raise Unsupported('to_rfc3339_opts out of range')
+        return StringO(list(txt.encode()),False,{'kind':'rfc3339','local_secs':d.f[0].signed_val(),'nanos':0,'offset':0})
     loc=d.f[0].z() if d.ty=='DateTime' else e.binop('Add',d.f[0],_off64(d)).z()
     return StringO(list(b'<rfc3339>'),True,{'kind':'rfc3339','local_secs':loc,'nanos':0,'offset':off,'zulu':deref(a[2])})
 def m_to_rfc3339(e,run,a,f):
@@ -1814,3 +1827,43 @@ def register_misc5(E):
 _old_register_all11=register_all
 def register_all(E):
     _old_register_all11(E); register_misc5(E)
+
+# ----------------------------------------------------------------------------- data_encoding::HEXLOWER
+def hex_char(n):
+    """n: BV8 term or int in 0..15 -> ASCII of the lowercase hex digit"""
+    if isinstance(n,int): return b'0123456789abcdef'[n]
+    return note_allowed(z3.simplify(z3.If(z3.ULT(n,10),n+0x30,n+0x57)),b'0123456789abcdef')
+def m_hex_encode(e,run,a,f):
+    out=[]
+    for x in byte_list(a[1]):
+        if isinstance(x,int): out+=[hex_char(x>>4),hex_char(x&15)]
+        else: out+=[hex_char(z3.LShR(x,4)),hex_char(x&0x0f)]
+    return StringO(out)
+def m_hex_decode(e,run,a,f):
+    bl=byte_list(a[1])
+    if len(bl)%2: return err(Opaque('DecodeError'))
+    vals=[]
+    for x in bl:
+        if isinstance(x,int):
+            c=chr(x)
+            if c not in '0123456789abcdef': return err(Opaque('DecodeError'))
+            vals.append(int(c,16))
+        else:
+            k=run.choose([z3.And(z3.UGE(x,0x30),z3.ULE(x,0x39)),z3.And(z3.UGE(x,0x61),z3.ULE(x,0x66)),z3.Not(z3.Or(z3.And(z3.UGE(x,0x30),z3.ULE(x,0x39)),z3.And(z3.UGE(x,0x61),z3.ULE(x,0x66))))],'hexdigit')
+            if k==2: return err(Opaque('DecodeError'))
+            vals.append(x-0x30 if k==0 else x-0x57)
+    out=[]
+    for i in range(0,len(vals),2):
+        h,l=vals[i],vals[i+1]
+        out.append((h<<4)|l if isinstance(h,int) and isinstance(l,int) else z3.simplify(((h if not isinstance(h,int) else z3.BitVecVal(h,8))<<4)|(l if not isinstance(l,int) else z3.BitVecVal(l,8))))
+    return ok(u8vec(out))
+def register_hex(E):
+    E.model(r'^(data_encoding::)?Encoding::encode$',m_hex_encode); E.model(r'^(data_encoding::)?Encoding::decode$',m_hex_decode)
+_old_register_all12=register_all
+def register_all(E):
+    _old_register_all12(E); register_hex(E)
+def register_misc6(E):
+    E.model(r' as ToString>::to_string$',m_to_string)
+_old_register_all13=register_all
+def register_all(E):
+    _old_register_all13(E); register_misc6(E)
